@@ -366,11 +366,27 @@ type Config struct {
 	Trace   bool
 }
 
+// globalResets re-initialise the package-level variables of the instrumented packages (registered by
+// init functions that vinstr adds), so that every execution starts from the same initial state even when
+// the code under test keeps mutable state at package scope.
+var globalResets []func()
+
+// RegisterGlobalReset is called from generated init functions.
+func RegisterGlobalReset(f func()) { globalResets = append(globalResets, f) }
+
+// ResetGlobals runs all registered resets (Run does it before every execution).
+func ResetGlobals() {
+	for _, f := range globalResets {
+		f()
+	}
+}
+
 // Run performs one execution of body under the given choice prefix.
 func Run(prefix []int, cfg Config, body func()) *Exec {
 	if cfg.Horizon == 0 {
 		cfg.Horizon = 20000
 	}
+	ResetGlobals()
 	x := &Exec{prefix: prefix, endCh: make(chan struct{}), Horizon: cfg.Horizon, tracing: cfg.Trace,
 		objvc: make(map[interface{}]VC), acc: make(map[accKey]*accState)}
 	X = x
